@@ -17,36 +17,41 @@ Init == /\ rep = [rl |-> 0, have |-> {}, blocks |-> {}]
         /\ wl \in 1..WLen
         /\ hist = <<<<"grow", wl>>>>
 
-\* well-formed requests of C03: a block inside the upgraded tree or upgrade-only
-Requests == {b \in -1..(wl - 1) : b >= 0 \/ rep.rl < wl}
+\* well-formed requests of C03: a block inside the upgraded tree, the hash of a tree node that
+\* does not straddle the replica's current length, or upgrade-only; as <<block, hash node>>
+Requests ==
+  {<<b, -1>> : b \in {x \in -1..(wl - 1) : x >= 0 \/ rep.rl < wl}}
+  \cup {<<-1, h>> : h \in {j \in FullNodes(wl) : RightSpan(j) < 2 * rep.rl \/ LeftSpan(j) >= 2 * rep.rl}}
 
-Fetch(b) ==
-  /\ b \in Requests
-  /\ LET p == HonestProof(rep, b, wl)
-         r == VerifyProof(rep, p, HonestK(rep, b, wl), FALSE, "none") IN
+Fetch(rq) ==
+  /\ rq \in Requests
+  /\ LET p == HonestProof(rep, rq[1], rq[2], wl)
+         r == VerifyProof(rep, p, HonestK(rep, rq[1], rq[2], wl), FALSE, "none") IN
      /\ r.ok
      /\ rep' = Apply(rep, r)
-  /\ hist' = Append(hist, <<"fetch", b>>)
+  /\ hist' = Append(hist, <<"fetch", rq[1], rq[2]>>)
   /\ UNCHANGED wl
 
 WriterGrows == /\ wl < WLen /\ wl' \in (wl + 1)..WLen /\ UNCHANGED rep
                /\ hist' = Append(hist, <<"grow", wl'>>)
 
-Next == (\E b \in -1..(WLen - 1) : Fetch(b)) \/ WriterGrows
+Next == (\E rq \in (-1..(WLen - 1)) \X (-1..(2 * WLen)) : Fetch(rq)) \/ WriterGrows
 Spec == Init /\ [][Next]_mvars
 
 \* C03: every honest proof is accepted, and it commits only true content
 HonestAccepted ==
-  \A b \in Requests :
-    LET r == VerifyProof(rep, HonestProof(rep, b, wl), HonestK(rep, b, wl), FALSE, "none") IN
+  \A rq \in Requests :
+    LET r == VerifyProof(rep, HonestProof(rep, rq[1], rq[2], wl), HonestK(rep, rq[1], rq[2], wl), FALSE, "none") IN
     r.ok /\ SoundResult(rep, r, wl) /\ (rep.rl < wl => r.len = wl)
 
 \* stored nodes are always true nodes and lie inside the verified tree
 StoredTrue == \A i \in rep.have : RightSpan(i) < 2 * rep.rl
 
 \* ---- alterations (C04) ----
-SetNodes(p, sec, v) == IF sec = "block" THEN [p EXCEPT !.block.nodes = v] ELSE [p EXCEPT !.up.nodes = v]
+SetNodes(p, sec, v) == IF sec = "block" THEN [p EXCEPT !.block.nodes = v]
+                       ELSE IF sec = "hash" THEN [p EXCEPT !.hash.nodes = v] ELSE [p EXCEPT !.up.nodes = v]
 NodesOf(p, sec) == IF sec = "block" THEN (IF IsNone(p.block) THEN <<>> ELSE p.block.nodes)
+                   ELSE IF sec = "hash" THEN (IF IsNone(p.hash) THEN <<>> ELSE p.hash.nodes)
                    ELSE (IF IsNone(p.up) THEN <<>> ELSE p.up.nodes)
 DropAt(v, j) == SubSeq(v, 1, j - 1) \o SubSeq(v, j + 1, Len(v))
 DupAt(v, j) == SubSeq(v, 1, j) \o SubSeq(v, j, Len(v))
@@ -58,6 +63,12 @@ Alterations(p) ==
       [p EXCEPT !.block = None]} \cup
      (IF p.block.i > 0 THEN {[p EXCEPT !.block.i = @ - 1]} ELSE {}))
   \cup
+  (IF IsNone(p.hash) THEN {} ELSE
+     {[p EXCEPT !.hash.i = @ + 1], [p EXCEPT !.hash = None]} \cup
+     (IF p.hash.i > 0 THEN {[p EXCEPT !.hash.i = @ - 1]} ELSE {}) \cup
+     \* a forged block section riding on the genuine hash section
+     {[p EXCEPT !.block = [i |-> i, val |-> 0, size |-> Sizes[i + 1], nodes |-> <<>>]] : i \in 0..(wl - 1)})
+  \cup
   (IF IsNone(p.up) THEN {} ELSE
      {[p EXCEPT !.up.sig = <<"X">>], [p EXCEPT !.up.sig = Sig("other", @[3], @[4], @[5])],
       [p EXCEPT !.up.length = @ + 1], [p EXCEPT !.up.start = @ + 1], [p EXCEPT !.fork = 1]} \cup
@@ -68,19 +79,23 @@ Alterations(p) ==
   UNION {
     LET v == NodesOf(p, sec) IN
     UNION {
-      {SetNodes(p, sec, [v EXCEPT ![j].h = <<"X">>]), SetNodes(p, sec, [v EXCEPT ![j].size = @ + 1]),
+      {SetNodes(p, sec, [v EXCEPT ![j].h = <<"X">>]),
        SetNodes(p, sec, [v EXCEPT ![j].idx = @ + 1]), SetNodes(p, sec, DropAt(v, j)), SetNodes(p, sec, DupAt(v, j))}
+      \* The size of the bottom node of a hash section is not authenticated by the scheme (only its hash
+      \* is compared or hashed into a parent whose size field is the *sum*): with that alteration included
+      \* TLC refutes ForgeSound, which is exactly the exclusion C04 states.  All other sizes are included.
+      \cup (IF sec = "hash" /\ j = 1 THEN {} ELSE {SetNodes(p, sec, [v EXCEPT ![j].size = @ + 1])})
       \cup (IF j < Len(v) THEN {SetNodes(p, sec, SwapAt(v, j))} ELSE {})
       \cup (IF v[j].idx > 0 THEN {SetNodes(p, sec, [v EXCEPT ![j].idx = @ - 1])} ELSE {})
       \* a different but well-formed node: another true node put in its place
       \cup {SetNodes(p, sec, [v EXCEPT ![j] = TrueNode(i)]) : i \in FullNodes(wl) \ {v[j].idx}}
       : j \in 1..Len(v)}
-    : sec \in {"block", "up"}}
+    : sec \in {"block", "hash", "up"}}
 
 \* C04: whatever is accepted commits only what the writer signed
 ForgeSound ==
-  \A b \in Requests :
-    LET p == HonestProof(rep, b, wl) k == HonestK(rep, b, wl) IN
+  \A rq \in Requests :
+    LET p == HonestProof(rep, rq[1], rq[2], wl) k == HonestK(rep, rq[1], rq[2], wl) IN
     \A a \in Alterations(p) :
       LET r == VerifyProof(rep, a, k, FALSE, Mut) IN
       r.ok => SoundResult(rep, r, wl)
@@ -96,16 +111,19 @@ ProofJ(p) == [fork |-> p.fork,
               hasblock |-> ~IsNone(p.block),
               block |-> IF IsNone(p.block) THEN [i |-> 0, val |-> 0, size |-> 0, nodes |-> <<>>]
                         ELSE [i |-> p.block.i, val |-> p.block.val, size |-> p.block.size, nodes |-> NodesJ(p.block.nodes)],
+              hashash |-> ~IsNone(p.hash),
+              hash |-> IF IsNone(p.hash) THEN [i |-> 0, nodes |-> <<>>] ELSE [i |-> p.hash.i, nodes |-> NodesJ(p.hash.nodes)],
               hasup |-> ~IsNone(p.up),
               up |-> IF IsNone(p.up) THEN [start |-> 0, length |-> 0, nodes |-> <<>>, sig |-> <<"bad", 0>>]
                      ELSE [start |-> p.up.start, length |-> p.up.length, nodes |-> NodesJ(p.up.nodes), sig |-> SigJ(p.up.sig)]]
-ExportLine(b) ==
-  LET p == HonestProof(rep, b, wl) k == HonestK(rep, b, wl)
+ExportLine(rq) ==
+  LET b == rq[1] h == rq[2]
+      p == HonestProof(rep, b, h, wl) k == HonestK(rep, b, h, wl)
       alts == Alterations(p)
       ord == SetToSeq(alts) IN
-  [sizes |-> Sizes, wl |-> wl, hist |-> hist, b |-> b, rl |-> rep.rl,
-   missing |-> IF b >= 0 THEN MissingNodes(rep, 2 * b) ELSE 0,
+  [sizes |-> Sizes, wl |-> wl, hist |-> hist, b |-> b, h |-> h, rl |-> rep.rl,
+   missing |-> IF b >= 0 THEN MissingNodes(rep, 2 * b) ELSE IF h >= 0 THEN MissingNodes(rep, h) ELSE 0,
    honest |-> ProofJ(p),
    alts |-> [j \in 1..Len(ord) |-> [p |-> ProofJ(ord[j]), ok |-> VerifyProof(rep, ord[j], k, FALSE, "none").ok]]]
-Export == \A b \in Requests : PrintT(<<"MERKLE", ToJson(ExportLine(b))>>)
+Export == \A rq \in Requests : PrintT(<<"MERKLE", ToJson(ExportLine(rq))>>)
 =============================================================================
